@@ -29,7 +29,7 @@ wt = tempfile.mkdtemp(prefix="seedchk-")
 ran = []
 def sh(cmd, cwd, timeout=1800):
     t0 = time.time()
-    p = subprocess.run(cmd, cwd=cwd, env=ENV, shell=True, capture_output=True, text=True, timeout=timeout)
+    p = subprocess.run(cmd, cwd=cwd, env=ENV, shell=True, capture_output=True, text=True, errors="replace", timeout=timeout)
     ran.append({"cmd": cmd, "rc": p.returncode, "secs": round(time.time() - t0, 1)})
     return p.returncode, p.stdout + p.stderr
 try:
